@@ -505,6 +505,29 @@ func (x *Exec) byContract(st *State, fr *Frame, n ast.Node, pc *ProcContract, os
 	env2.st = post
 	env2.old = st
 	env2.results = results
+	// a pointer-receiver method of an owned tree node updates its receiver in place
+	var newSelf Term
+	inout := false
+	if recv.ok() && osig.Recv() != nil && recv.Sort != "Ref" {
+		if _, isP := types.Unalias(osig.Recv().Type()).(*types.Pointer); isP && x.isValuePtrType(osig.Recv().Type()) {
+			inout = true
+			if post == st {
+				post = st.clone()
+				env2.st = post
+			}
+			newSelf = x.d.fresh("self_"+strings.ReplaceAll(short, " ", ""), recv.Sort)
+			newSelf.Ty = recv.Ty
+			env2.self = newSelf
+			env2.oldSelf = recv
+			if osig.Recv().Name() != "" && osig.Recv().Name() != "_" {
+				env2.names = map[string]Term{}
+				for k2, v := range env.names {
+					env2.names[k2] = v
+				}
+				env2.names[osig.Recv().Name()] = newSelf
+			}
+		}
+	}
 	x.applySets(post, &env2, pc, n)
 	for _, c := range pc.Ensures {
 		t, err := x.cevalSafe(&env2, c, "Bool")
@@ -516,7 +539,34 @@ func (x *Exec) byContract(st *State, fr *Frame, n ast.Node, pc *ProcContract, os
 	}
 	restored = true
 	restore()
+	if inout {
+		x.writeBackRecv(post, fr, n, newSelf)
+	}
 	k(post, results)
+}
+
+// writeBackRecv stores the callee's final receiver value into the receiver expression of
+// the call, and - when that is a child borrowed by a type switch - into the container
+// element it was borrowed from.
+func (x *Exec) writeBackRecv(st *State, fr *Frame, n ast.Node, newSelf Term) {
+	ce, ok := n.(*ast.CallExpr)
+	if !ok {
+		return
+	}
+	se, ok := ast.Unparen(ce.Fun).(*ast.SelectorExpr)
+	if !ok {
+		return
+	}
+	x.store(st, fr, se.X, newSelf)
+	if id, ok := ast.Unparen(se.X).(*ast.Ident); ok {
+		if o := x.info.ObjectOf(id); o != nil {
+			if origin, ok := x.borrow[o]; ok {
+				if w, ok := x.nodeWrap(newSelf, o.Type()); ok {
+					x.store(st, fr, origin, w)
+				}
+			}
+		}
+	}
 }
 
 // havocModifies: `modifies` items are contract expressions naming a ghost/heap map entry
@@ -543,6 +593,8 @@ func (x *Exec) havocModifies(post *State, env *CEnv, pc *ProcContract, n ast.Nod
 			switch e := e.(type) {
 			case CIdent:
 				switch e.Name {
+				case "vtrace":
+					x.ghostVTrace(post)
 				case "sawCancel", "waited", "closerSpawned":
 					x.ghostBool(post, e.Name)
 				case "sleeps", "added", "spawned", "doneCalls":
@@ -1542,6 +1594,12 @@ func (x *Exec) convertTo(st *State, v Term, to types.Type, n ast.Node) Term {
 		}
 	}
 	if toIface && v.Ty != nil {
+		if nso, ok := x.valueTreeSort(to); ok && v.Sort != nso {
+			if w, ok := x.nodeWrap(v, v.Ty); ok {
+				w.Ty = to
+				return w
+			}
+		}
 		fromU := types.Unalias(v.Ty)
 		if _, fromIface := fromU.Underlying().(*types.Interface); !fromIface {
 			if b, ok := fromU.(*types.Basic); ok && b.Kind() == types.UntypedNil {
@@ -1725,6 +1783,9 @@ func (x *Exec) fold(st *State, r Term, t types.Type, n ast.Node) {
 func (x *Exec) implBoxHook(st *State, r Term, named *types.Named, isPtr bool) {}
 
 func (x *Exec) typeAssert(st *State, v Term, to types.Type, n ast.Node) (Term, Term) {
+	if isT, val, ok := x.nodeMatch(v, to); ok {
+		return val, isT
+	}
 	x.d.fun("dyn", []string{"Ref"}, "Int")
 	ok := tEq(tApp("Int", "dyn", v), x.typeTag(to))
 	ok = tAnd(tNot(tEq(v, Term{S: "null", Sort: "Ref"})), ok)
@@ -1762,7 +1823,7 @@ func (x *Exec) typeSwitch(st *State, fr *Frame, s *ast.TypeSwitchStmt, k func(*S
 		for _, te := range cc.List {
 			tt := x.info.TypeOf(te)
 			if id, ok := te.(*ast.Ident); ok && id.Name == "nil" {
-				conds = append(conds, tEq(v, Term{S: "null", Sort: "Ref"}))
+				conds = append(conds, tEq(v, x.zeroOfSort(v.Sort, nil)))
 				continue
 			}
 			tv, ok := x.typeAssert(cur, v, tt, te)
@@ -1776,6 +1837,9 @@ func (x *Exec) typeSwitch(st *State, fr *Frame, s *ast.TypeSwitchStmt, k func(*S
 			if o := x.info.Implicits[cc]; o != nil {
 				if len(cc.List) == 1 {
 					val.Ty = o.Type()
+					if x.isValuePtrType(o.Type()) {
+						x.borrow[o] = xe // the child is borrowed from this place: writes go back
+					}
 					t.vars[o] = val
 				} else {
 					t.vars[o] = v
